@@ -871,8 +871,9 @@ def ConnOK (cfg : Cfg) (a : A) (u : Nat) (r : Req) (nm : List Nat) (evs : List E
 
 theorem checkConnect_cases_c06 (cfg : Cfg) (a : A) (u : Nat) (m : AMod) (h : Hdr) (evs : List Ev)
     (hok : ¬(ackSends evs = [] ∧ a.failing u = true) → ∀ nm, (reqOf cfg m h a.buf).name = some nm →
-      ConnOK cfg a u (reqOf cfg m h a.buf) nm evs) :
-    ∃ Y, ErrExt ["C03", "C07"] a Y ∧
+      ConnOK cfg a u (reqOf cfg m h a.buf) nm evs)
+    (hname : (reqOf cfg m h a.buf).name = none → ackSends evs = []) :
+    ∃ Y, ErrExt ["C07"] a Y ∧
       ((checkConnect cfg a u m h evs = (Y, none) ∧ ackSends evs = [] ∧ a.failing u = true) ∨
        (checkConnect cfg a u m h evs = (Y, some false) ∧ (ackSends evs = [] ∨ (reqOf cfg m h a.buf).name = none) ∧
           ¬(ackSends evs = [] ∧ a.failing u = true)) ∨
@@ -881,7 +882,7 @@ theorem checkConnect_cases_c06 (cfg : Cfg) (a : A) (u : Nat) (m : AMod) (h : Hdr
             (Y.upd u (connUpd (reqOf cfg m h a.buf) nm (connId (reqOf cfg m h a.buf) evs)), some true))) := by
   unfold checkConnect
   dsimp only
-  generalize hr : reqOf cfg m h a.buf = r at hok
+  generalize hr : reqOf cfg m h a.buf = r at hok hname
   have hacks : List.filter (fun p => p.2.2.body == Body.ack) (sends evs) = ackSends evs := rfl
   rw [hacks]
   by_cases h0 : ((ackSends evs).isEmpty && a.failing u) = true
@@ -895,7 +896,9 @@ theorem checkConnect_cases_c06 (cfg : Cfg) (a : A) (u : Nat) (m : AMod) (h : Hdr
     · -- refused
       have hnil : ackSends evs = [] := List.isEmpty_iff.mp hemp
       cases hn : r.name with
-      | none => exact ⟨_, errExt_chk _ _ _ _ _ (by simp), Or.inr (Or.inl ⟨rfl, Or.inl hnil, hnf⟩)⟩
+      | none =>
+        refine ⟨a, ErrExt.refl _ _, Or.inr (Or.inl ⟨?_, Or.inl hnil, hnf⟩)⟩
+        rw [chk_of a _ "C03" _ (by simp [hemp])]
       | some nm =>
         have hc := hok' nm hn
         unfold ConnOK at hc
@@ -916,7 +919,7 @@ theorem checkConnect_cases_c06 (cfg : Cfg) (a : A) (u : Nat) (m : AMod) (h : Hdr
       have hne : ackSends evs ≠ [] := fun e => hemp (List.isEmpty_iff.mpr e)
       have hemp' : (ackSends evs).isEmpty = false := by simpa using hemp
       cases hn : r.name with
-      | none => exact ⟨_, errExt_chk _ _ _ _ _ (by simp), Or.inr (Or.inl ⟨rfl, Or.inr rfl, hnf⟩)⟩
+      | none => exact absurd (hname hn) hne
       | some nm =>
         have hc := hok' nm hn
         unfold ConnOK at hc
@@ -950,8 +953,9 @@ theorem segment_connect_cases_c06 (cfg : Cfg) (a : A) (rd : Read) (evs : List Ev
     (hc : (rd.h.mtype == cfg.mtConnect || rd.h.mtype == cfg.mtConnectV2) = true) (hcn : m.connected = false)
     (hok : ¬(ackSends evs = [] ∧ (afterBuf cfg a rd).failing rd.uid = true) → ∀ nm,
       (reqOf cfg m rd.h (afterBuf cfg a rd).buf).name = some nm →
-      ConnOK cfg (afterBuf cfg a rd) rd.uid (reqOf cfg m rd.h (afterBuf cfg a rd).buf) nm evs) :
-    ∃ Y, ErrExt ["C03", "C07"] (afterBuf cfg a rd) Y ∧
+      ConnOK cfg (afterBuf cfg a rd) rd.uid (reqOf cfg m rd.h (afterBuf cfg a rd).buf) nm evs)
+    (hname : (reqOf cfg m rd.h (afterBuf cfg a rd).buf).name = none → ackSends evs = []) :
+    ∃ Y, ErrExt ["C07"] (afterBuf cfg a rd) Y ∧
       (((ackSends evs = [] ∨ (reqOf cfg m rd.h (afterBuf cfg a rd).buf).name = none) ∧
         (ackSends evs = [] → ∃ W, segment cfg a rd evs = applyDepartures W evs ∧
           (((afterBuf cfg a rd).failing rd.uid = true ∧ W = checkDepartures cfg Y (some rd.uid) evs) ∨
@@ -962,7 +966,7 @@ theorem segment_connect_cases_c06 (cfg : Cfg) (a : A) (rd : Read) (evs : List Ev
               (Y.upd rd.uid (connUpd (reqOf cfg m rd.h (afterBuf cfg a rd).buf) nm
                 (connId (reqOf cfg m rd.h (afterBuf cfg a rd).buf) evs))) rd.uid true evs) none evs) evs) evs)) := by
   have hseg := segment_connect cfg a rd evs m hget hal hb hc hcn
-  obtain ⟨Y, hY, hcases⟩ := checkConnect_cases_c06 cfg (afterBuf cfg a rd) rd.uid m rd.h evs hok
+  obtain ⟨Y, hY, hcases⟩ := checkConnect_cases_c06 cfg (afterBuf cfg a rd) rd.uid m rd.h evs hok hname
   refine ⟨Y, hY, ?_⟩
   rcases hcases with ⟨he, hnil, hfl⟩ | ⟨he, hor, hnf⟩ | ⟨nm, hnm, hne, he⟩
   · refine Or.inl ⟨Or.inl hnil, fun _ => ⟨_, ?_, Or.inl ⟨hfl, rfl⟩⟩⟩
@@ -1002,5 +1006,26 @@ theorem checkInfos_ok (a : A) (evs : List Ev)
       · have : m.connected = false := by simpa using hc
         simp [this]
   | _ => rfl
+
+/-- `checkC05` when no malformed frame is among the frames sent: nothing is reported under C03 -/
+theorem checkC05_c03 (a : A) (all : List Ev) (senderOf : Nat → Nat)
+    (hb : (sends all).filter (fun p => brokenFrame p.2.2) = []) : ErrExt ["C05", "C07"] a (checkC05 a all senderOf) := by
+  unfold checkC05
+  extract_lets broken a1 a2 uids a3 a4
+  have hbe : broken = [] := hb
+  have e1 : a1 = a := by show a.chk _ _ _ = a; exact chk_of _ _ _ _ (by rw [hbe]; rfl)
+  have e2 : a2 = a := by show a1.chk _ _ _ = a; rw [e1]; exact chk_of _ _ _ _ (by rw [hbe]; rfl)
+  have h3 : ErrExt ["C05", "C07"] a a3 := by
+    show ErrExt _ a (List.foldl _ a2 uids)
+    rw [e2]
+    exact errExt_foldl _ _ (fun x y => by
+      dsimp only
+      exact (errExt_chk _ _ _ _ _ (by simp)).chk _ _ _ (by simp)) _ _
+  have h4 : ErrExt ["C05", "C07"] a a4 := h3.foldl _ _ (fun x y =>
+    errExt_foldl _ _ (fun x' y' => errExt_chk _ _ _ _ _ (by simp)) _ _)
+  refine h4.foldl _ _ (fun x y => errExt_foldl _ _ (fun x' y' => ?_) _ _)
+  split
+  · exact ErrExt.refl _ _
+  · exact errExt_chk _ _ _ _ _ (by simp)
 
 end Pyrtma.Mgr.Spec
